@@ -33,6 +33,8 @@ def check(ck):
     r03_3(ck, sa)
     r03_4(ck, sa)
     r03_5(ck, sa)
+    from . import c01
+    c01.r01_14(ck, sa.rf, rule='R03.6')
 
 
 def quiet_lists(sa):
@@ -255,7 +257,8 @@ def r03_3(ck, sa):
     cfg = rf.cfg
     w = rf.while_loop
     atoms = A.cond_atoms(w.test, False)
-    ok = ('<=', 'end_time', 'self.global_time') in atoms
+    END = rf.end_name
+    ok = ('<=', END, 'self.global_time') in atoms
     ck.require(ok, 'R03.3', f, 'while ' + A.unparse(w.test),
                'leaving the loop implies global_time >= end_time',
                'the scheduler loop can exit before global_time reaches '
@@ -272,7 +275,7 @@ def r03_3(ck, sa):
                'behind the clock are never brought up to it (update(0) / '
                'run_for(0, force_complete=True) do nothing)', w)
     # end_time definition
-    defs = local_defs(f.node).get('end_time', [])
+    defs = local_defs(f.node).get(END, [])
     ok = len(defs) == 1 and isinstance(defs[0].value, ast.BinOp) and \
         isinstance(defs[0].value.op, ast.Add) and {
             A.unparse(defs[0].value.left), A.unparse(defs[0].value.right)} \
@@ -303,11 +306,11 @@ def r03_3(ck, sa):
             wg = cfg.guards(cfg.node(w.body[0])) if w.body else set()
             extra = g - wg
             at_end = bool(extra & {
-                ('==', 'end_time', 'self.global_time'),
-                ('<=', 'end_time', 'self.global_time')})
+                ('==', END, 'self.global_time'),
+                ('<=', END, 'self.global_time')})
             others = {a for a in extra if a not in (
-                ('==', 'end_time', 'self.global_time'),
-                ('<=', 'end_time', 'self.global_time'),
+                ('==', END, 'self.global_time'),
+                ('<=', END, 'self.global_time'),
                 ('truthy', flag))}
             ck.require(is_false and at_end and not others, 'R03.3', f,
                        d.stmt,
@@ -346,12 +349,12 @@ def r03_4(ck, sa):
     for n in A.walk_no_nested(f.node):
         if isinstance(n, ast.Compare):
             for side in [n.left] + n.comparators:
-                if isinstance(side, ast.Name) and 'emit' in side.id:
+                if isinstance(side, ast.Name) and side.id in rf.emit_names:
                     names.add(side.id)
     # the clock itself: locals assigned to self.global_time
     for a in rf.advance_stmts():
         if isinstance(a, ast.Assign) and isinstance(a.value, ast.Name) and \
-                a.value.id in defs and a.value.id != 'end_time':
+                a.value.id in defs and a.value.id != rf.end_name:
             names.add(a.value.id)
         manufactured = isinstance(a, ast.AugAssign) or (
             isinstance(a, ast.Assign) and any(
